@@ -30,9 +30,34 @@ def str_tests(P, body):
         yield lit, bb, te, fe
 
 
+SHRINKERS = ("truncate", "dedup", "dedup_by", "dedup_by_key", "retain", "retain_mut", "pop", "remove", "swap_remove", "drain", "clear", "split_off")
+
+
+def _r12_rules_are_the_rules_written(ctx):
+    """R12 the list the first-match search walks is the list the operator wrote: the loader removes no rule and no prefix of a rule after
+    parsing it (dedup, retain, truncate ..). "Covered by its neighbour" is not a reason: which rule is first to match a client depends
+    on every prefix of every rule before it."""
+    P = ctx.P
+    roots = [f for f in P.bodies if f.endswith("acl::parse_acl") or f.endswith("acl::parse_acls")]
+    n = 0
+    for r in roots:
+        shr = []
+        for x in P.family(r):
+            n += 1
+            ctx.saw(x)
+            for bb, tm in x.calls():
+                nme = callee_name(tm) or ""
+                if nme.rsplit("::", 1)[-1] in SHRINKERS and tm["args"] and ("Vec" in nme or "vec::" in nme or "slice" in nme):
+                    shr.append("%s at %s" % (nme.rsplit("::", 1)[-1], P.rel(tm["sp"])))
+        ctx.check(not shr, "R12", "parsed-rules-and-prefixes-never-shrink:%s" % r.rsplit("::", 1)[-1], ctx.where(P.bodies[r]),
+                  "no rule and no prefix may be removed after parsing: %s" % (shr or "ok"))
+    ctx.floor("R12", "functions of the ACL loader", n, 2)
+
+
 def run(ctx):
     P = ctx.P
     cg = callgraph(P)
+    _r12_rules_are_the_rules_written(ctx)
     _r1(ctx, cg)
     _r2(ctx, cg)
     _r3_r9(ctx)
